@@ -9,6 +9,17 @@ KEYF = 'cardutil/key.py'
 VBSMODS = ['contracts.mciipm_block', 'contracts.mciipm_vbs']
 
 PROPS = {
+    'C17': {
+        'modules': ['contracts.bitarray', 'contracts.mciipm_info'],
+        'canaries': [
+            (MCI, "if len(sample_data) >= 2028 and sample_data[2026:2028] == Block1014.PAD_CHAR * 2:", "if len(sample_data) == 2028 and sample_data[2026:2028] == Block1014.PAD_CHAR * 2:", "blocked files of 3+ blocks reported unblocked", "writer-output"),
+            (MCI, "if len(sample_data) < 24:", "if len(sample_data) < 32:", "short-file threshold moved", "writer-output[ascii,vbs"),
+            (MCI, "if mti.decode('cp037').isnumeric():", "if mti.decode('cp500').isalpha():", "EBCDIC detection broken", "writer-output[ebcdic"),
+            (MCI, "if record_length > max_rec_length:", "if record_length >= max_rec_length:", "maximum-length first record rejected", "boundaries"),
+        ],
+        'assumptions': ["writer output is characterised structurally: 4-byte big-endian first length in 20..MAX, four MTI digits in the codec family (0x30-0x39 / 0xF0-0xF9), bitmap with bit 1 set and only packaged-configured bits, blocked files = whole 1014-byte blocks ending 40 40 (what C03/C04 prove about the writer)",
+                        "str.isnumeric exact for code points < 256 (table), cp037 decoding by table"],
+    },
     'C13': {
         'modules': ['contracts.pinblock'],
         'canaries': [
